@@ -600,7 +600,18 @@ func (e *SpecEnv) evalCall(x *ast.CallExpr) Val {
 		r.T = ite(c, a.T, b.T)
 		return r
 	case "old":
-		return e.inOld().eval(x.Args[0])
+		oe := e.inOld()
+		v := oe.eval(x.Args[0])
+		if v.K == KSlice && v.S.Obj != nil && oe.st != nil {
+			// a slice value does not remember the state it was read in (its contents are looked up by backing object):
+			// freeze the contents it had in the old state, so that old(s) used outside of old(...) means the old contents
+			fz := *v.S
+			fz.Arr = e.run.sliceArr(oe.st, v.S)
+			fz.Obj = nil
+			fz.From = nil
+			v.S = &fz
+		}
+		return v
 	case "genIdx":
 		f := arg(0)
 		g, ok := e.st.ghost["genIdx"]
@@ -647,7 +658,8 @@ func (e *SpecEnv) evalCall(x *ast.CallExpr) Val {
 		}
 		e.run.needProd()
 		lo, hi := arg(1), arg(2)
-		return intV(sx("prod", e.run.sliceArr(e.st, s.S), add(s.S.Off, lo.T), add(s.S.Off, hi.T)))
+		// over the zero-based window of the slice (the same term an index array of its elements would give)
+		return intV(sx("prod", e.run.zeroBased(e.st, s.S), lo.T, hi.T))
 	case "sumr":
 		// sumr(s, lo, hi): sum of an int slice segment
 		s := arg(0)
